@@ -1022,7 +1022,9 @@ func main() {
 	for _, c := range corpus() {
 		emit(c)
 	}
-	r := hx.NewRng(ctx.Seed)
+	// hx.NewRng(seed) starts splitmix64 at seed*G, so the streams of consecutive seeds are shifts of one another;
+	// seeding from the first (mixed) output makes different seeds explore unrelated cases.
+	r := hx.NewRng(hx.NewRng(ctx.Seed).U64())
 	for i := len(corpus()); i < ctx.N; i++ {
 		rr := r.Fork()
 		switch rr.Pick(6, 2, 2) {
